@@ -17,6 +17,8 @@ import os
 import sys
 
 HERE = os.path.dirname(os.path.abspath(__file__))
+# recipes do `import py2lean`; when this file runs as a script make that the very same module object
+sys.modules.setdefault('py2lean', sys.modules[__name__])
 PINNED = os.path.join(HERE, 'pinned.json')
 
 
